@@ -89,6 +89,8 @@ def _run(rs, ctx):
     arms = list(gen.LABELS[labels][:n_arms])
     d = int(rs.integers(1, 6))
     nd, nt = int(rs.integers(1, 7)), int(rs.integers(1, 5))
+    if rs.integers(6) == 0:
+        nd = int(gen.pick(rs, [17, 20, 24]))  # a million buckets: hash codes far above 1e5
     n_jobs = int(gen.pick(rs, [1, 2, 3]))
     cfg = {"arms": arms, "labels": labels, "lp": gen.gen_lp(rs, lk, deterministic=True),
            "reward_stress": int(rs.integers(6)) if rs.integers(5) == 0 else None,
@@ -124,6 +126,12 @@ def _run(rs, ctx):
                 if abs(x32 @ p_) > 1e-11 * float(np.sum(np.abs(x32 * p_))):
                     c["X"][i] = [float(v) for v in x32]
                     ctx.count("rows_a_hair_off_a_hyperplane")
+                    if i + 1 < len(c["X"]) and rs.integers(2):
+                        # ... and its mirror image on the other side of that hyperplane: the two rows differ in one bit of the code
+                        m32 = (x32 - 2.0 * (x32 @ p_) / (p_ @ p_) * p_).astype(np.float32).astype(float)
+                        if abs(m32 @ p_) > 1e-11 * float(np.sum(np.abs(m32 * p_))) and (m32 @ p_ > 0) != (x32 @ p_ > 0):
+                            c["X"][i + 1] = [float(v) for v in m32]
+                            ctx.count("mirrored_hair_rows")
             c["x_enc"] = "f4"
         op = dict(c, op="fit" if (ci == 0 or refit) else "partial_fit")
         try:
